@@ -154,6 +154,11 @@ fn line_hash(file: &str, line: u32) -> String {
 impl PanicRec {
 	/// `panic|<entry>|<file>|<hash of source line>|<message class>`
 	pub fn signature(&self, entry: &str) -> String {
+		// a panic in the harness's own code (paths relative to the harness crate) is a defect of the machinery:
+		// the report files it as inconclusive, never as a violation of the property
+		if self.file.starts_with("src/") {
+			return format!("harness-panic|{entry}|{}:{}|{}", self.file, self.line, message_class(&self.message));
+		}
 		let in_repo = self.file.contains("versatiles");
 		let lh = if in_repo { line_hash(&self.file, self.line) } else { "ext".into() };
 		format!("panic|{entry}|{}|{lh}|{}", short_file(&self.file), message_class(&self.message))
